@@ -79,6 +79,10 @@ Definition put_by (p : nat) (x : nat * Z) : bool := Nat.eqb (fst x) p.
 Definition rets {op : Type} (h : list (nat * op * qres)) : list Z :=
   flat_map (fun e => match e with (_, _, RVal v) => [v] | (_, _, RList l) => l | _ => [] end) h.
 
+(* the queue a call found, computed from the history before it *)
+Definition bq_before (h1 : list (nat * bq_op * qres)) : list Z := skipn (length (rets h1)) (bq_puts h1).
+Definition bbq_before (h1 : list (nat * bbq_op * qres)) : list Z := skipn (length (rets h1)) (bbq_puts h1).
+
 (* client classification used by the notification discipline *)
 Definition bq_blocker (c : cond) (o : bq_op) : bool :=
   match o with BTake => Nat.eqb c notEmpty | _ => false end.
